@@ -43,8 +43,11 @@ func (t tasks) Remove(task *taskInfo) tasks {
 		return t
 	}
 
-	t = append(t[:task.Index], t[task.Index+1:]...)
-	return t
+	// 各个高度的下载协程共享同一个底层数组, 必须拷贝后再删除, 否则会改写其他协程看到的节点列表
+	nt := make(tasks, 0, len(t)-1)
+	nt = append(nt, t[:task.Index]...)
+	nt = append(nt, t[task.Index+1:]...)
+	return nt
 }
 
 func (t tasks) Sort() tasks {
